@@ -3,6 +3,7 @@ package c13
 import (
 	"errors"
 	"fmt"
+	"reflect"
 
 	sentinel "github.com/alibaba/sentinel-golang/api"
 	"github.com/alibaba/sentinel-golang/core/base"
@@ -48,6 +49,31 @@ func listsFor(va []int, vb int, inv []int, nilIdx int) [][]int {
 	return l
 }
 
+// label identifies a rule returned by a getter by its CONTENT: the label of the catalogue entry whose
+// freshly built rule prints the same (every field), so that a getter which reports a rule with the
+// right id but stale fields is noticed. id is the fallback for rules outside the catalogue.
+func label(specs []spec, printed, id string) string {
+	for _, sp := range specs {
+		if sp.Nil {
+			continue
+		}
+		if allFields(sp.mk()) == printed {
+			return sp.ID
+		}
+	}
+	return id + "?fields-differ-from-every-catalogue-rule:" + printed
+}
+
+// allFields prints every field of the rule a pointer points to (the rules' own String methods leave
+// some fields out).
+func allFields(p interface{}) string {
+	v := reflect.ValueOf(p)
+	if v.Kind() == reflect.Ptr && !v.IsNil() {
+		v = v.Elem()
+	}
+	return fmt.Sprintf("%+v", v.Interface())
+}
+
 func modules() []*module {
 	return []*module{flowModule(), isolationModule(), hotspotModule(), breakerModule(), systemModule(), outlierModule()}
 }
@@ -84,6 +110,20 @@ func flowModule() *module {
 		}),
 		mk("inv-memAdaptive", "a", func(r *flow.Rule) { r.TokenCalculateStrategy = flow.MemoryAdaptive }),
 		{ID: "nil", Nil: true, mk: func() interface{} { return (*flow.Rule)(nil) }},
+		// three rules that differ in ONE field only (and carry the same rule id): a reload from one to
+		// another must replace the enforced rule and what the getters report
+		{ID: "aMem", Res: "a", mk: func() interface{} {
+			return &flow.Rule{ID: "m", Resource: "a", TokenCalculateStrategy: flow.MemoryAdaptive, LowMemUsageThreshold: 5, HighMemUsageThreshold: 4, MemLowWaterMarkBytes: 1024, MemHighWaterMarkBytes: 2048}
+		}},
+		{ID: "aMemHi", Res: "a", mk: func() interface{} {
+			return &flow.Rule{ID: "m", Resource: "a", TokenCalculateStrategy: flow.MemoryAdaptive, LowMemUsageThreshold: 5, HighMemUsageThreshold: 4, MemLowWaterMarkBytes: 1024, MemHighWaterMarkBytes: 4096}
+		}},
+		{ID: "aMemLo", Res: "a", mk: func() interface{} {
+			return &flow.Rule{ID: "m", Resource: "a", TokenCalculateStrategy: flow.MemoryAdaptive, LowMemUsageThreshold: 5, HighMemUsageThreshold: 4, MemLowWaterMarkBytes: 512, MemHighWaterMarkBytes: 2048}
+		}},
+		{ID: "a5queue", Res: "a", mk: func() interface{} { return &flow.Rule{ID: "a5", Resource: "a", Threshold: 5, MaxQueueingTimeMs: 7} }},
+		{ID: "a5interval", Res: "a", mk: func() interface{} { return &flow.Rule{ID: "a5", Resource: "a", Threshold: 5, StatIntervalInMs: 2000} }},
+		{ID: "a5ref", Res: "a", mk: func() interface{} { return &flow.Rule{ID: "a5", Resource: "a", Threshold: 5, RefResource: "zz"} }},
 	}
 	conv := func(rs []interface{}) []*flow.Rule {
 		out := make([]*flow.Rule, 0, len(rs))
@@ -94,15 +134,15 @@ func flowModule() *module {
 	}
 	ids := func(rs []flow.Rule) []string {
 		out := []string{}
-		for _, r := range rs {
-			out = append(out, r.ID)
+		for i := range rs {
+			out = append(out, label(specs, allFields(&rs[i]), rs[i].ID))
 		}
 		return out
 	}
-	thr := map[string]float64{"a5": 5, "a0": 0, "a50warm": 50, "b0": 0}
+	thr := map[string]float64{"a5": 5, "a0": 0, "a50warm": 50, "b0": 0, "aMem": 5, "aMemHi": 5, "aMemLo": 5, "a5queue": 5, "a5interval": 5, "a5ref": 5}
 	return &module{
 		Name: "flow", Specs: specs, Resources: []string{"a", "b"},
-		Lists:    listsFor([]int{0, 1, 2}, 3, []int{4, 5, 6, 7, 8, 9, 10, 11}, 12),
+		Lists:    append(listsFor([]int{0, 1, 2}, 3, []int{4, 5, 6, 7, 8, 9, 10, 11}, 12), []int{13}, []int{14}, []int{15}, []int{16}, []int{17}, []int{18}),
 		Load:     func(rs []interface{}) (bool, error) { return flow.LoadRules(conv(rs)) },
 		LoadRes:  func(res string, rs []interface{}) (bool, error) { return flow.LoadRulesOfResource(res, conv(rs)) },
 		Clear:    flow.ClearRules,
@@ -118,7 +158,7 @@ func flowModule() *module {
 				if e != nil {
 					e.Exit()
 				}
-				got += trig(blk, func(r base.SentinelRule) string { return r.(*flow.Rule).ID }) + ","
+				got += trig(blk, func(r base.SentinelRule) string { return label(specs, allFields(r.(*flow.Rule)), r.(*flow.Rule).ID) }) + ","
 				w := "pass"
 				for _, id := range enforced {
 					t := thr[id]
@@ -160,8 +200,8 @@ func isolationModule() *module {
 	}
 	ids := func(rs []isolation.Rule) []string {
 		out := []string{}
-		for _, r := range rs {
-			out = append(out, r.ID)
+		for i := range rs {
+			out = append(out, label(specs, allFields(&rs[i]), rs[i].ID))
 		}
 		return out
 	}
@@ -183,7 +223,9 @@ func isolationModule() *module {
 				if e != nil {
 					e.Exit()
 				}
-				got += trig(blk, func(r base.SentinelRule) string { return r.(*isolation.Rule).ID }) + ","
+				got += trig(blk, func(r base.SentinelRule) string {
+					return label(specs, allFields(r.(*isolation.Rule)), r.(*isolation.Rule).ID)
+				}) + ","
 				w := "pass"
 				for _, id := range enforced {
 					if b > thr[id] {
@@ -221,6 +263,16 @@ func hotspotModule() *module {
 		mk("inv-negBurst", "a", func(r *hotspot.Rule) { r.BurstCount = -1 }),
 		mk("inv-negQueue", "a", func(r *hotspot.Rule) { r.ControlBehavior = hotspot.Throttling; r.MaxQueueingTimeMs = -1 }),
 		{ID: "nil", Nil: true, mk: func() interface{} { return (*hotspot.Rule)(nil) }},
+		// a5 with ONE other field changed (same rule id)
+		{ID: "a5cap", Res: "a", mk: func() interface{} {
+			return &hotspot.Rule{ID: "a5", Resource: "a", MetricType: hotspot.QPS, ControlBehavior: hotspot.Reject, DurationInSec: 1, Threshold: 5, ParamsMaxCapacity: 7}
+		}},
+		{ID: "a5burst", Res: "a", mk: func() interface{} {
+			return &hotspot.Rule{ID: "a5", Resource: "a", MetricType: hotspot.QPS, ControlBehavior: hotspot.Reject, DurationInSec: 1, Threshold: 5, BurstCount: 1}
+		}},
+		{ID: "a5dur", Res: "a", mk: func() interface{} {
+			return &hotspot.Rule{ID: "a5", Resource: "a", MetricType: hotspot.QPS, ControlBehavior: hotspot.Reject, DurationInSec: 2, Threshold: 5}
+		}},
 	}
 	conv := func(rs []interface{}) []*hotspot.Rule {
 		out := make([]*hotspot.Rule, 0, len(rs))
@@ -231,15 +283,15 @@ func hotspotModule() *module {
 	}
 	ids := func(rs []hotspot.Rule) []string {
 		out := []string{}
-		for _, r := range rs {
-			out = append(out, r.ID)
+		for i := range rs {
+			out = append(out, label(specs, allFields(&rs[i]), rs[i].ID))
 		}
 		return out
 	}
-	thr := map[string]int64{"a5": 5, "a0": 0, "a50": 50, "b0": 0}
+	thr := map[string]int64{"a5": 5, "a0": 0, "a50": 50, "b0": 0, "a5cap": 5, "a5burst": 6, "a5dur": 5}
 	return &module{
 		Name: "hotspot", Specs: specs, Resources: []string{"a", "b"},
-		Lists:    listsFor([]int{0, 1, 2}, 3, []int{4, 5, 6, 7, 8, 9, 10}, 11),
+		Lists:    append(listsFor([]int{0, 1, 2}, 3, []int{4, 5, 6, 7, 8, 9, 10}, 11), []int{12}, []int{13}, []int{14}),
 		Load:     func(rs []interface{}) (bool, error) { return hotspot.LoadRules(conv(rs)) },
 		LoadRes:  func(res string, rs []interface{}) (bool, error) { return hotspot.LoadRulesOfResource(res, conv(rs)) },
 		Clear:    hotspot.ClearRules,
@@ -256,7 +308,9 @@ func hotspotModule() *module {
 				if e != nil {
 					e.Exit()
 				}
-				got += trig(blk, func(r base.SentinelRule) string { return r.(*hotspot.Rule).ID }) + ","
+				got += trig(blk, func(r base.SentinelRule) string {
+					return label(specs, allFields(r.(*hotspot.Rule)), r.(*hotspot.Rule).ID)
+				}) + ","
 				w := "pass"
 				for _, id := range enforced {
 					if int64(b) > thr[id] {
@@ -283,6 +337,11 @@ func breakerModule() *module {
 			return r
 		}}
 	}
+	mk2 := func(lbl string, f func(r *cb.Rule)) spec {
+		sp := mk("aCount", "a", f)
+		sp.ID = lbl
+		return sp
+	}
 	specs := []spec{
 		mk("aCount", "a", func(r *cb.Rule) {}),
 		mk("aRatio", "a", func(r *cb.Rule) { r.Strategy = cb.ErrorRatio; r.Threshold = 0.5 }),
@@ -294,6 +353,12 @@ func breakerModule() *module {
 		mk("inv-slowRatio2", "a", func(r *cb.Rule) { r.Strategy = cb.SlowRequestRatio; r.Threshold = 2; r.MaxAllowedRtMs = 5 }),
 		mk("inv-errRatio2", "a", func(r *cb.Rule) { r.Strategy = cb.ErrorRatio; r.Threshold = 2 }),
 		{ID: "nil", Nil: true, mk: func() interface{} { return (*cb.Rule)(nil) }},
+		// aCount with ONE other field changed (same rule id)
+		mk2("aCountProbe", func(r *cb.Rule) { r.ProbeNum = 2 }),
+		mk2("aCountRetry", func(r *cb.Rule) { r.RetryTimeoutMs = 999999 }),
+		// (not MaxAllowedRtMs: for an error-count rule it has no effect and the module deliberately
+		// treats such rules as equal, keeping the old breaker and its rule object)
+		mk2("aCountBuckets", func(r *cb.Rule) { r.StatSlidingWindowBucketCount = 2 }),
 	}
 	conv := func(rs []interface{}) []*cb.Rule {
 		out := make([]*cb.Rule, 0, len(rs))
@@ -304,15 +369,15 @@ func breakerModule() *module {
 	}
 	ids := func(rs []cb.Rule) []string {
 		out := []string{}
-		for _, r := range rs {
-			out = append(out, r.Id)
+		for i := range rs {
+			out = append(out, label(specs, allFields(&rs[i]), rs[i].Id))
 		}
 		return out
 	}
-	id := func(r base.SentinelRule) string { return r.(*cb.Rule).Id }
+	id := func(r base.SentinelRule) string { return label(specs, allFields(r.(*cb.Rule)), r.(*cb.Rule).Id) }
 	return &module{
 		Name: "circuitbreaker", Specs: specs, Resources: []string{"a", "b"},
-		Lists:    listsFor([]int{0, 1, 2}, 3, []int{4, 5, 6, 7, 8}, 9),
+		Lists:    append(listsFor([]int{0, 1, 2}, 3, []int{4, 5, 6, 7, 8}, 9), []int{10}, []int{11}, []int{12}),
 		Load:     func(rs []interface{}) (bool, error) { return cb.LoadRules(conv(rs)) },
 		LoadRes:  func(res string, rs []interface{}) (bool, error) { return cb.LoadRulesOfResource(res, conv(rs)) },
 		Clear:    cb.ClearRules,
